@@ -81,3 +81,40 @@ Definition alias_ok (aliases : list (Z * Z)) (a b : Z) : bool :=
 (* the reflection obligation over a database: overlapping rows of one opcode bucket name the same mnemonic or reviewed aliases *)
 Definition bucket_unique (aliases : list (Z * Z)) (rows : list row) : bool :=
   forallb (fun r1 => forallb (fun r2 => negb (may_overlap r1 r2) || alias_ok aliases (r_name r1) (r_name r2)) rows) rows.
+
+(* ------------------------------------------------------------------ round 4: a sharper overlap relation, per vector length and 67 prefix
+   Two rows that both yield a denotation of the same bytes also agree on the EVEX vector length (unless a length is ignored, or -- with
+   EVEX.b in the register form -- both are 512-bit / LIG forms with embedded rounding) and, when neither has a memory operand, on the
+   address-size prefix they require.  With these two conditions the same-mnemonic overlapping rows of the database have equal operand
+   specifications, up to a short reviewed list (bucket_same_ops). *)
+Definition key_isreg (k : option (Z * bool * Z)) : bool := match k with Some (_, b, _) => b | None => false end.
+
+Definition row_compat2 (h : rhead) (k : option (Z * bool * Z)) (r : row) : bool :=
+  (if r_kind r =? 3 then
+     (if rh_b h && (key_isreg k && r_modrm r) then (r_l r =? 2) || (r_l r =? 3) else (r_l r =? 3) || (r_l r =? rh_L h))
+   else true) &&
+  (has_mem_operand r || Bool.eqb (p_67 (rh_pfx h)) (r_a67 r)).
+
+Definition extra_overlap (r1 r2 : row) : bool :=
+  (negb (r_kind r1 =? 3) || negb (r_kind r2 =? 3) || negb (Bool.eqb (r_modrm r1) (r_modrm r2)) ||
+   (r_l r1 =? 3) || (r_l r2 =? 3) || (r_l r1 =? r_l r2)) &&
+  (has_mem_operand r1 || has_mem_operand r2 || Bool.eqb (r_a67 r1) (r_a67 r2)).
+
+(* equality of what a row says about its operands (everything of an opspec that the inverse operand map and the matcher read) *)
+Definition opspec_eqb (a b : opspec) : bool :=
+  (o_kind a =? o_kind b) && (o_cls a =? o_cls b) && (o_fixed a =? o_fixed b) && (o_slot a =? o_slot b) && (o_msz a =? o_msz b) &&
+  (o_immoff a =? o_immoff b) && (o_immsz a =? o_immsz b) && (o_immval a =? o_immval b) && Bool.eqb (o_signed a) (o_signed b) &&
+  Bool.eqb (o_implicit a) (o_implicit b).
+Fixpoint ops_eqb (a b : list opspec) : bool :=
+  match a, b with
+  | [], [] => true
+  | x :: a', y :: b' => opspec_eqb x y && ops_eqb a' b'
+  | _, _ => false
+  end.
+
+(* the reflection obligation: rows of one bucket with the SAME mnemonic that may overlap (both relations) have equal operand
+   specifications, unless the mnemonic is on the reviewed list (true second readings: implied st(1), commutative xchg, ...) *)
+Definition bucket_same_ops (exceptions : list Z) (rows : list row) : bool :=
+  forallb (fun r1 => forallb (fun r2 =>
+     negb (r_name r1 =? r_name r2) || negb (may_overlap r1 r2 && extra_overlap r1 r2) ||
+     existsb (Z.eqb (r_name r1)) exceptions || ops_eqb (r_ops r1) (r_ops r2)) rows) rows.
